@@ -45,7 +45,7 @@ TEXT.update({
     "C16": ("the memory clauses only: call protocol of cellsToLinkedMultiPolygon (graph destroyed exactly once on every path, partial result released and error returned when normalisation fails), destroyLinkedMultiPolygon frees every block of every result shape up to 2x2x2, h3SetToVertexGraph releases its graph when a boundary fails (thorough).",
             "every geometric clause (components, orientation, closure, provenance, area) is NOT decided: needs real cell boundaries (trig) and point-in-loop tests (symbolic FP division)."),
     "C17": ("the allocator is the harness' H3_ALLOC_PREFIX shim whose failure schedule is a symbolic bit per allocation: one query covers every failure point of every input in the bound. Obligations: failure => E_MEMORY_ALLOC, nothing left allocated on any path, no double free (CBMC free preconditions), E_MEMORY_ALLOC only on failure, full result when nothing fails.",
-            "compactCells 3 arbitrary words (6 thorough); areNeighborCells / gridDisk / gridDiskDistances k=1 on every cell of res 0-1 (0-3 thorough); experimental polyfill on triangles with 0-1 hole under over-approximated geometry, <= 3 geometry evaluations. Legacy polygonToCells (flood fill) is outside."),
+            "compactCells 3 arbitrary words; areNeighborCells / gridDisk / gridDiskDistances k=1 on every cell of res 0-1 (0-3 thorough); experimental polyfill on triangles with 0-1 hole under over-approximated geometry, <= 3 geometry evaluations. Legacy polygonToCells (flood fill) is outside."),
     "C18": ("reduction: if no library-owned object is ever written, calls on caller-owned buffers cannot interfere. The driver lists every static-lifetime non-const object of the freshly compiled library from the goto symbol table and every assignment rooted in one (new statics, memo tables, scratch buffers appear automatically); the solver decides the frame condition (bit-identical snapshots) for the seven existing mutable statics across the calls that reference them.",
             "the step from the frame condition to 'all interleavings equal a sequential run' is an argument, not a query; libc's thread safety is trusted."),
     "C19": ("assume-guarantee: the real getIcosahedronFaces against arbitrary vertex faces (distinct faces in first-seen order, -1 padding, E_FAILED exactly on overflow, nothing beyond maxFaceCount slots, class II pentagon delegation); on the real lattice code every hexagon vertex lies on the centre's face or an adjacent one and a hexagon touches at most one other face (res 0-1 quick, 0-2 thorough).",
@@ -61,7 +61,7 @@ TEXT["C10"] = ("isValidDirectedEdge equals the documented layout on ALL 2^64 wor
                "boundary coordinates and the great-circle length of one segment are outside (trig).")
 TEXT["C11"] = ("assume-guarantee: the real cellToVertex / isValidVertex / cellToVertexes / vertexToLatLng verified against arbitrary component values (any 64-bit cell word; vertexToLatLng returns the owner's n-th TOPOLOGICAL corner for any distortion pattern), and the component contracts (neighbour step C05, vertex/direction bijection, centre-child minimality, corner triangle) verified on the real code over all cells of the stated resolutions.", TEXT["C11"][1])
 TEXT["C19"] = ("assume-guarantee: the real getIcosahedronFaces against arbitrary vertex faces with an exact-size heap buffer (distinct faces in first-seen order, -1 padding, E_FAILED exactly on overflow, no access beyond maxFaceCount slots, a Class II pentagon is evaluated on its centre child); on the real lattice code every hexagon vertex lies on the centre's face or an adjacent one and a hexagon touches at most one other face (res 0-1 quick, 0-2 thorough).", TEXT["C19"][1])
-TEXT["C17"] = (TEXT["C17"][0], "compactCells 3 arbitrary words (6 thorough); areNeighborCells / gridDisk / gridDiskDistances k=1 on every valid cell of res 0-1 (0-3 thorough) and gridDisk on ANY 64-bit origin word (error paths of the fallback); experimental polyfill on triangles with 0-1 hole under over-approximated geometry, <= 3 geometry evaluations; legacy polygonToCells: allocation prologue / tracer errors / epilogue (flood fill with a seed: thorough, class X).")
+TEXT["C17"] = (TEXT["C17"][0], "compactCells 3 arbitrary words; areNeighborCells / gridDisk / gridDiskDistances k=1 on every valid cell of res 0-1 (0-3 thorough) and gridDisk on ANY 64-bit origin word (error paths of the fallback); experimental polyfill on triangles with 0-1 hole under over-approximated geometry, <= 3 geometry evaluations; legacy polygonToCells: allocation prologue / tracer errors / epilogue. The flood fill itself (one seed, 2-slot table) exhausted 30 GB and is outside, as is compactCells on 6 words (17 GB).")
 TEXT["C14"] = (TEXT["C14"][0] + " Component: consistency of the local IJ chart the path is interpolated in (cellToLocalIj / localIjToCell round trip, res 1).", TEXT["C14"][1])
 
 NA = {
